@@ -17,7 +17,7 @@ CONSTANTS
   TreeIds,       \* indexes into AllTrees: the trees CheckOut may be given
   SparseIds,     \* indexes into AllSparse
   XP,            \* exec-bit policy
-  Strict,        \* TRUE: the known set_sparse_patterns panic counts as a violation
+  Strict,        \* "none": the known findings F1-F9 are tolerated; "all": none is; "F<n>": all but that one
   Emit           \* TRUE: print complete behaviours for the replayer
 
 VARIABLES st, bad, n, run, hist, ended
@@ -94,23 +94,26 @@ PostOf(s) == [disk |-> TreeSeq(s.disk), tree |-> TreeSeq(s.tree), sparse |-> s.s
 
 (* verdict of one transition of the reference: "" or the failing contract; the known   *)
 (* findings F1-F3 (WorkingCopy.tla) are tolerated unless Strict                          *)
+Tol(id) == Strict = "none" \/ (Strict # "all" /\ Strict # id)
 SnapshotVerdict(s, s2) ==
   LET v == SnapshotContract(s, s2) IN
-  IF v = "ok" \/ (v = "Panic:Snapshot" /\ ~Strict
-                    /\ (StaleStateShape(s) \/ DirConflictShape(s) \/ TrackedDirShape(s)))
-              \/ (v = "SnapshotOK" /\ ~Strict /\ (StaleIgnoredShape(s) \/ ThroughSymlinkShape(s)))
-              \/ (v = "Error:Snapshot" /\ ~Strict /\ NotDirShape(s))
-              \/ (v = "SnapshotOutsideSparse" /\ ~Strict /\ SparseClashShape(s)) THEN "" ELSE v
+  IF \/ v = "ok"
+     \/ (v = "Panic:Snapshot" /\ ((Tol("F2") /\ StaleStateShape(s)) \/ (Tol("F4") /\ DirConflictShape(s))
+                                  \/ (Tol("F5") /\ TrackedDirShape(s))))
+     \/ (v = "SnapshotOK" /\ ((Tol("F6") /\ StaleIgnoredShape(s)) \/ (Tol("F8") /\ ThroughSymlinkShape(s))))
+     \/ (v = "Error:Snapshot" /\ Tol("F7") /\ NotDirShape(s))
+     \/ (v = "SnapshotOutsideSparse" /\ Tol("F9") /\ SparseClashShape(s))
+  THEN "" ELSE v
 CheckOutVerdict(s, new, s2) ==
   LET v == CheckOutContract(s, new, s2) IN
-  IF v = "Panic:CheckOut" /\ ~Strict /\ UnsortedShape(s, new) THEN ""
+  IF v = "Panic:CheckOut" /\ Tol("F3") /\ UnsortedShape(s, new) THEN ""
   ELSE IF v # "ok" THEN v
-  ELSE IF Pristine(s) /\ ~(~Strict /\ (StaleStateShape(s2) \/ TrackedDirShape(s2)))
+  ELSE IF Pristine(s) /\ ~((Tol("F2") /\ StaleStateShape(s2)) \/ (Tol("F5") /\ TrackedDirShape(s2)))
           /\ (DoSnapshot(s2).tree # new \/ DoSnapshot(s2).err # "") THEN "SnapshotAfterCheckoutSame"
   ELSE ""
 SparseVerdict(s, sp, s2) ==
   LET v == SparseContract(s, sp, s2) IN
-  IF v = "ok" \/ (v = "Panic:SetSparse" /\ ~Strict /\ SparsePanicShape(s, sp)) THEN "" ELSE v
+  IF v = "ok" \/ (v = "Panic:SetSparse" /\ Tol("F1") /\ SparsePanicShape(s, sp)) THEN "" ELSE v
 
 Init == st = InitState(XP) /\ bad = "" /\ n = 0 /\ run = 0 /\ hist = <<>> /\ ended = FALSE
 
